@@ -109,6 +109,20 @@ func (h *history) doomedAt(k int) map[string]bool {
 			out[f] = true
 		}
 	}
+	// fractions a finished retention pass has pushed out
+	for _, c := range h.Calls {
+		if (c.Step.Op == "shrink" || c.Step.Op == "sealrace") && c.Err == "" && c.MarkIdx < k {
+			left := map[string]bool{}
+			for _, f := range c.After {
+				left[f.Name] = true
+			}
+			for _, f := range c.Before {
+				if !left[f.Name] {
+					out[f.Name] = true
+				}
+			}
+		}
+	}
 	// fractions of the base state that the restart at the head of this history did not serve
 	if h.Base != nil && len(h.Calls) > 0 && h.Calls[0].Err == "" && h.Calls[0].MarkIdx < k {
 		listed := map[string]bool{}
@@ -299,6 +313,12 @@ func (d *driver) emitOps(h *history) {
 					ev, class = "EvCreate", "ops:create"
 				} else {
 					ev, class = "EvSeal", "ops:seal"
+				}
+			case "sealrace":
+				if len(bf) == 0 {
+					ev, class = "EvCreate", "ops:create"
+				} else {
+					ev, class = "EvSealEvict", "ops:seal-evicted"
 				}
 			case "shrink":
 				kind := "active"
@@ -499,6 +519,38 @@ func (d *driver) run() {
 			}
 			d.sweep(h)
 			d.cacheCases(h)
+			d.sealRaces(round, sorted)
+		}
+	}
+}
+
+// sealRaces: retention evicts a fraction at every stage of its seal (proxyFrac states Sealing / sealed but
+// not yet released / released), with Release before, overlapped with, or after the deletion; every crash
+// point of the combined sequence is restarted, and so is the state after the pass (the fraction must be gone).
+func (d *driver) sealRaces(round int, sorted bool) {
+	type sched struct {
+		park string
+		hold bool
+	}
+	scheds := []sched{{"seal.readonly", false}, {"seal.idle", false}, {"seal.built", false}, {"seal.swapped", false}, {"seal.released", false},
+		{"seal.readonly", true}, {"seal.idle", true}, {"seal.built", true}}
+	for _, sc := range scheds {
+		h := &history{ID: fmt.Sprintf("R%d-%v-%s-%v", round, sorted, sc.park, sc.hold), Sorted: sorted,
+			Steps: []step{{Op: "bulk", N: d.r.Range(2, 4)}, {Op: "sealrace", Park: sc.park, Hold: sc.hold}, {Op: "bulk", N: 2}, {Op: "seal"}, {Op: "synccache"}}}
+		if !d.execHistory(h) {
+			continue
+		}
+		d.w.Count("sealrace_histories")
+		bad := false
+		for _, c := range h.Calls {
+			if c.Err != "" {
+				bad = true
+				d.w.Violate("sealrace:call-failed", "a call of the retention-during-seal history failed: "+c.Err, h.desc())
+			}
+		}
+		d.afterHistory(h)
+		if !bad {
+			d.exploreCrashes(h, "load:evicted-while-sealing", h.crashPoints())
 		}
 	}
 }
